@@ -191,7 +191,7 @@ inductive Verdict where
   | skipped
   | fail (msg : String)
 
-def fmtF (x : Float) : String := toString x
+def fmtF (x : Float) : String := if x.abs < 1.0e-3 || x.abs > 1.0e15 then s!"{x}[0x{wF x}]" else toString x
 
 /-- compare one recorded value with its target -/
 def judge (name : String) (t : Target) (w : String) : Verdict :=
